@@ -1,7 +1,360 @@
-import RTV.Model.TimexCfg
-/-! # C15 — TIMEX resolution and constraint solving only return correct, valid values (work in progress) -/
-namespace RTV.Timex
+import RTV.Lemmas.Timex
+/-!
+# C15 — TIMEX resolution and constraint solving only return correct, valid values
 
-theorem c15_placeholder : collapseFuel = 64 := rfl
+Theorems about `RTV.Model.TimexResolve` run with `genCfg` (patterns, `Constants.DAYS` and the `TimexCreator`
+strings regenerated from the working tree on every check).
+-/
+namespace RTV.Timex
+open RTV.Py RTV.Cal
+set_option linter.unusedSimpArgs false
+
+/-! ## weekdays -/
+
+/-- `XXXX-WXX-w` -/
+def weekdayStr (w : Nat) : Str := [88, 88, 88, 88, 45, 87, 88, 88, 45, 48 + w]
+
+theorem parse_weekday : ∀ w : Fin 10, parse genCfg (weekdayStr w.val) = { dayOfWeek := some (.int w.val) } := by
+  decide
+
+theorem format_weekday : ∀ w : Fin 10, w.val ≠ 0 →
+    formatT { dayOfWeek := some (.int w.val) } = .ok (weekdayStr w.val) := by
+  decide
+
+/-- the entry `resolve` builds for a weekday TIMEX and the date with ordinal `o` -/
+def wdEntry (w : Nat) (o : Nat) : Entry :=
+  { timex := .str (weekdayStr w), type := .str tDate, value := .str (dateValue (ymd (Date.ofOrd o))),
+    start := .none, «end» := .none }
+
+/-- C15(a) **weekday_resolve** — for every ISO weekday `w ∈ 1..7` and every reference date (from 0001-01-08 to
+9999-12-24, so that both neighbours exist) `TimexResolver.resolve(['XXXX-WXX-w'], ref)` has exactly two values,
+both of type `date`: the dates with ordinals `l` and `n` where `l` is the last `w` **strictly before** and `n` the
+next `w` **strictly after** the reference, each at most 7 days away, each falling on the asked weekday. -/
+theorem weekday_resolve (w : Fin 7) (ref : Date) (hlo : 8 ≤ ref.ord) (hhi : ref.ord + 7 ≤ maxOrd) :
+    ∃ l n : Nat,
+      resolve genCfg [weekdayStr (w.val + 1)] ref = .ok [wdEntry (w.val + 1) l, wdEntry (w.val + 1) n] ∧
+      l < ref.ord ∧ ref.ord < n ∧ ref.ord ≤ l + 7 ∧ n ≤ ref.ord + 7 ∧
+      isoWeekdayOrd l = w.val + 1 ∧ isoWeekdayOrd n = w.val + 1 := by
+  have hp := parse_weekday ⟨w.val + 1, by omega⟩
+  have hf := format_weekday ⟨w.val + 1, by omega⟩ (by simp)
+  push_cast at hp hf
+  refine ⟨ref.ord - (((6 - (w.val : Int) + weekdayOrd ref.ord) % 7) + 1).toNat,
+          ref.ord + (((6 + (w.val : Int) - weekdayOrd ref.ord) % 7) + 1).toNat, ?_, ?_⟩
+  · have hs : genCfg.sunday = 6 := rfl
+    have hne : ¬ ((w.val : Int) + 1 = 0) := by omega
+    have hday : (if (w.val : Int) + 1 = 6 then genCfg.sunday else (w.val : Int) + 1) - 1 = (w.val : Int) := by
+      rw [hs]; split <;> omega
+    simp only [resolve, List.foldlM, hp]
+    simp [resolveTimex, infer, isDate, isDateRange, isDuration, isTime, isDefinite, truthyO, truthyS, Num.truthy,
+      resolveDate, hf, lastDateValue, nextDateValue, andChainNotNone, weekdayArg, wdEntry, bind, Except.bind, pure,
+      Except.pure, hne, hday, dateOfLastDay_ok _ ref hlo (by omega), dateOfNextDay_ok _ ref (by omega) hhi]
+  · unfold isoWeekdayOrd weekdayOrd
+    omega
+
+example : (⟨2020, 5, 6⟩ : Date).ord = 737551 ∧ 8 ≤ 737551 ∧ 737551 + 7 ≤ maxOrd := by decide
+
+/-! ## durations -/
+
+/-- the entry `resolve` builds for a duration TIMEX -/
+def durEntry (tv : Str) (secs : Nat) : Entry :=
+  { timex := .str tv, type := .str tDuration, value := .str (nstr secs), start := .none, «end» := .none }
+
+/-- C15(b) **duration_seconds** — a duration TIMEX with an integral amount `n` (fields as `Timex('PnU')` sets
+them: `Decimal(n)`), for each of the seven units, resolves to one `duration` entry whose value is the length in
+seconds `n × unit` (31536000, 2592000, 604800, 86400, 3600, 60, 1), printed as a plain integer; the products stay
+below the 28 significant digits of the default Decimal context. -/
+theorem duration_seconds (n : Nat) (hn : numDigits (31536000 * n) ≤ 28) (ref : Date)
+    (h2 : numDigits (2592000 * n) ≤ 28) (h3 : numDigits (604800 * n) ≤ 28) (h4 : numDigits (86400 * n) ≤ 28)
+    (h5 : numDigits (3600 * n) ≤ 28) (h6 : numDigits (60 * n) ≤ 28) :
+    resolveTimex genCfg { years := some (.dec false n 0) } ref = .ok [durEntry (80 :: nstr n ++ [89]) (31536000 * n)] ∧
+    resolveTimex genCfg { months := some (.dec false n 0) } ref = .ok [durEntry (80 :: nstr n ++ [77]) (2592000 * n)] ∧
+    resolveTimex genCfg { weeks := some (.dec false n 0) } ref = .ok [durEntry (80 :: nstr n ++ [87]) (604800 * n)] ∧
+    resolveTimex genCfg { days := some (.dec false n 0) } ref = .ok [durEntry (80 :: nstr n ++ [68]) (86400 * n)] ∧
+    resolveTimex genCfg { hours := some (.dec false n 0) } ref = .ok [durEntry (80 :: 84 :: nstr n ++ [72]) (3600 * n)] ∧
+    resolveTimex genCfg { minutes := some (.dec false n 0) } ref = .ok [durEntry (80 :: 84 :: nstr n ++ [77]) (60 * n)] ∧
+    resolveTimex genCfg { seconds := some (.dec false n 0) } ref = .ok [durEntry (80 :: 84 :: nstr n ++ [83]) n] := by
+  have g1 : ¬ (numDigits (31536000 * n) > 28) := by omega
+  have g2 : ¬ (numDigits (2592000 * n) > 28) := by omega
+  have g3 : ¬ (numDigits (604800 * n) > 28) := by omega
+  have g4 : ¬ (numDigits (86400 * n) > 28) := by omega
+  have g5 : ¬ (numDigits (3600 * n) > 28) := by omega
+  have g6 : ¬ (numDigits (60 * n) > 28) := by omega
+  refine ⟨?_, ?_, ?_, ?_, ?_, ?_, ?_⟩ <;>
+    simp [resolveTimex, infer, isDate, isDateRange, isDuration, isTime, isDefinite, truthyO, truthyS, formatT,
+      formatFuel, formatDuration, durationValue, Num.mulInt, Num.str, optStr, decStr_int, durEntry, bind, Except.bind,
+      pure, Except.pure, Functor.map, Except.map, g1, g2, g3, g4, g5, g6]
+
+example : numDigits (31536000 * 1000) ≤ 28 := by decide
+
+/-! ## years and months -/
+
+/-- the ISO text `YYYY-MM-DD` of a date, as `TimexValue.date_value` prints it -/
+def isoDate (d : Date) : Str := dateValue (ymd d)
+
+example : isoDate ⟨2021, 1, 1⟩ = [50, 48, 50, 49, 45, 48, 49, 45, 48, 49] := by decide
+
+/-- C15(c) **year_range** — a year TIMEX (fields as `Timex('YYYY')` sets them, `1 ≤ y`) resolves to one
+`daterange` entry `[y-01-01, (y+1)-01-01)`. -/
+theorem year_range (y : Nat) (hy : 1 ≤ y) (ref : Date) :
+    resolveTimex genCfg { year := some (.int y) } ref =
+      .ok [{ timex := .str (fixedFormat (some (.int y)) 4), type := .str tDaterange,
+             start := .str (isoDate ⟨y, 1, 1⟩), «end» := .str (isoDate ⟨y + 1, 1, 1⟩), value := .none }] := by
+  have h0 : ¬ (y = 0) := by omega
+  simp [resolveTimex, infer, isDate, isDateRange, isDuration, isTime, isDefinite, truthyO, truthyS, Num.truthy,
+    resolveDateRange, andChainNotNone, yearDateRange, Num.add, formatT, formatFuel, formatDateRange, rangeEntry,
+    isoDate, ymd, bind, Except.bind, pure, Except.pure, h0]
+
+/-- first day of the month after `y-m` -/
+def nextMonthStart (y m : Nat) : Date := if m = 12 then ⟨y + 1, 1, 1⟩ else ⟨y, m + 1, 1⟩
+
+/-- C15(d) **month_range** — a year-month TIMEX resolves to the half-open range
+`[y-m-01, first day of the next month)`, **including December** (since fix d71f0ec63). -/
+theorem month_range (y m : Nat) (hy : 1 ≤ y) (hm1 : 1 ≤ m) (hm : m ≤ 12) (ref : Date) :
+    resolveTimex genCfg { year := some (.int y), month := some (.int m) } ref =
+      .ok [{ timex := .str (fixedFormat (some (.int y)) 4 ++ 45 :: fixedFormat (some (.int m)) 2),
+             type := .str tDaterange, start := .str (isoDate ⟨y, m, 1⟩),
+             «end» := .str (isoDate (nextMonthStart y m)), value := .none }] := by
+  have h0 : ¬ (y = 0) := by omega
+  have h1 : ¬ (m = 0) := by omega
+  by_cases h2 : m = 12
+  · subst h2
+    simp [resolveTimex, infer, isDate, isDateRange, isDuration, isTime, isDefinite, truthyO, truthyS, Num.truthy,
+      resolveDateRange, andChainNotNone, monthDateRange, optAdd, Num.add, Num.eqInt, Num.scaled, pow10, formatT,
+      formatFuel, formatDateRange, rangeEntry, isoDate, ymd, nextMonthStart, bind, Except.bind, pure, Except.pure, h0]
+  · have h3 : ¬ ((m : Int) = 12) := by omega
+    simp [resolveTimex, infer, isDate, isDateRange, isDuration, isTime, isDefinite, truthyO, truthyS, Num.truthy,
+      resolveDateRange, andChainNotNone, monthDateRange, optAdd, Num.add, Num.eqInt, Num.scaled, pow10, formatT,
+      formatFuel, formatDateRange, rangeEntry, isoDate, ymd, nextMonthStart, bind, Except.bind, pure, Except.pure, h0,
+      h1, h2, h3]
+
+/-- `2020-12` -/
+def s2020_12 : Str := [50, 48, 50, 48, 45, 49, 50]
+
+/-- regression (was finding `month-range-december`): `resolve(['2020-12'])` ends at `2021-01-01`; the code before
+the fix (`monthDateRangeBeforeFix`) answered the non-date `2020-13-01`. -/
+theorem month_range_december :
+    resolve genCfg [s2020_12] ⟨2020, 5, 6⟩ =
+      .ok [{ timex := .str s2020_12, type := .str tDaterange, start := .str (isoDate ⟨2020, 12, 1⟩),
+             «end» := .str (isoDate ⟨2021, 1, 1⟩), value := .none }] ∧
+    monthDateRangeBeforeFix (some (.int 2020)) (some (.int 12)) =
+      .ok (isoDate ⟨2020, 12, 1⟩, [50, 48, 50, 48, 45, 49, 51, 45, 48, 49]) := by
+  decide
+
+/-- `2020-W53`, `2020-W01` -/
+def s2020_W53 : Str := [50, 48, 50, 48, 45, 87, 53, 51]
+def s2020_W01 : Str := [50, 48, 50, 48, 45, 87, 48, 49]
+
+/-- regression (was finding `week-range-end-month`, `[2020-12-28, 2020-12-04]`): ISO weeks that cross a month or
+year end resolve to Monday … next Monday. -/
+theorem week_range_across_month :
+    resolve genCfg [s2020_W53] ⟨2020, 5, 6⟩ =
+      .ok [{ timex := .str s2020_W53, type := .str tDaterange, start := .str (isoDate ⟨2020, 12, 28⟩),
+             «end» := .str (isoDate ⟨2021, 1, 4⟩), value := .none }] ∧
+    resolve genCfg [s2020_W01] ⟨2020, 5, 6⟩ =
+      .ok [{ timex := .str s2020_W01, type := .str tDaterange, start := .str (isoDate ⟨2019, 12, 30⟩),
+             «end» := .str (isoDate ⟨2020, 1, 6⟩), value := .none }] := by
+  decide
+
+/-- C15 **week_range** — `week_date_range(y, w)` for `2 ≤ y ≤ 9998`, `w ≤ 53` is `[s, s + 7)` for a Monday `s`
+that lies `7·w` days after the Monday of the week before the week containing January 4th… stated directly: `s` is
+a Monday and `s = m + 7·(w − 1)`, `m` the first day of ISO week 1 as CPython computes it (`isoWeek1Monday`). -/
+theorem week_range (y w : Nat) (hy : 2 ≤ y) (hy2 : y ≤ 9998) (hw1 : 1 ≤ w) (hw : w ≤ 53) :
+    ∃ s, weekDateRange genCfg (some (.int y)) (some (.int w)) =
+        .ok (isoDate (Date.ofOrd s), isoDate (Date.ofOrd (s + 7))) ∧
+      weekdayOrd s = 0 ∧ s = isoWeek1Monday y + 7 * (w - 1) := by
+  have hv : (⟨y, 1, 1⟩ : Date).valid = true := by
+    rw [valid_iff]; simp [daysInMonth]; omega
+  have hr := ord_range ⟨y, 1, 1⟩ hv
+  have hlo : daysBeforeYear 2 ≤ daysBeforeYear y := dby_mono (by omega) hy
+  have hhi : daysBeforeYear y ≤ daysBeforeYear 9998 := dby_mono (by omega) hy2
+  have e2 : daysBeforeYear 2 = 365 := by decide
+  have e3 : daysBeforeYear 9998 = 3651329 := by decide
+  have ho : (⟨y, 1, 1⟩ : Date).ord = daysBeforeYear y + 1 := by
+    simp [Date.ord, daysBeforeMonth, daysBeforeMonthTbl]
+  refine ⟨isoWeek1Monday y + 7 * (w - 1), ?_, ?_, rfl⟩
+  · have hm : genCfg.monday = 0 := rfl
+    have hmk : mkDate (some (.int (y : Int))) (some (.int 1)) (some (.int 1)) = .ok ⟨y, 1, 1⟩ := by
+      have : (0 : Int) ≤ y := by omega
+      simp [mkDate, this, hv]; rfl
+    have hwd : ((⟨y, 1, 1⟩ : Date).weekday : Int) = ((daysBeforeYear y + 1 + 6) % 7 : Nat) := by
+      simp [Date.weekday, weekdayOrd, ho]
+    have hiso : isoWeek1Monday y = if (daysBeforeYear y + 1 + 6) % 7 > 3
+        then daysBeforeYear y + 1 - (daysBeforeYear y + 1 + 6) % 7 + 7
+        else daysBeforeYear y + 1 - (daysBeforeYear y + 1 + 6) % 7 := by
+      simp [isoWeek1Monday, ho]
+    -- first step: the Monday of ISO week 1
+    have step1 : (if ((⟨y, 1, 1⟩ : Date).weekday : Int) ≤ 3 then addDays ⟨y, 1, 1⟩ (-((⟨y, 1, 1⟩ : Date).weekday : Int))
+        else addDays ⟨y, 1, 1⟩ (7 - ((⟨y, 1, 1⟩ : Date).weekday : Int))) = .ok (Date.ofOrd (isoWeek1Monday y)) := by
+      rw [hiso]
+      split
+      · rw [addDays_ok _ _ (by rw [ho, hwd]; omega) (by rw [ho, hwd]; unfold maxOrd; omega) (by rw [hwd]; omega)]
+        congr 2; rw [ho, hwd]; split <;> omega
+      · rw [addDays_ok _ _ (by rw [ho, hwd]; omega) (by rw [ho, hwd]; unfold maxOrd; omega) (by rw [hwd]; omega)]
+        congr 2; rw [ho, hwd]; split <;> omega
+    have hb : 360 ≤ isoWeek1Monday y ∧ isoWeek1Monday y ≤ 3651340 := by rw [hiso]; split <;> omega
+    have hmon : weekdayOrd (isoWeek1Monday y) = 0 := by rw [hiso]; unfold weekdayOrd; split <;> omega
+    have o1 := (ord_ofOrd (isoWeek1Monday y) (by omega) (by unfold maxOrd; omega)).1
+    have step2 : addDays (Date.ofOrd (isoWeek1Monday y)) ((w : Int) * 7) = .ok (Date.ofOrd (isoWeek1Monday y + 7 * w)) := by
+      rw [addDays_ok _ _ (by rw [o1]; omega) (by rw [o1]; unfold maxOrd; omega) (by omega)]
+      congr 2; rw [o1]; omega
+    have o2 := (ord_ofOrd (isoWeek1Monday y + 7 * w) (by omega) (by unfold maxOrd; omega)).1
+    have step3 : dateOfLastDay 0 (Date.ofOrd (isoWeek1Monday y + 7 * w)) = .ok (Date.ofOrd (isoWeek1Monday y + 7 * (w - 1))) := by
+      rw [dateOfLastDay_ok _ _ (by rw [o2]; omega) (by rw [o2]; unfold maxOrd; omega), o2]
+      congr 2; unfold weekdayOrd at hmon ⊢; omega
+    have step4 : addDays (Date.ofOrd (isoWeek1Monday y + 7 * w)) 7 = .ok (Date.ofOrd (isoWeek1Monday y + 7 * w + 7)) := by
+      rw [addDays_ok _ _ (by rw [o2]; omega) (by rw [o2]; unfold maxOrd; omega) (by omega)]
+      congr 2; rw [o2]; omega
+    have o3 := (ord_ofOrd (isoWeek1Monday y + 7 * w + 7) (by omega) (by unfold maxOrd; omega)).1
+    have step5 : dateOfLastDay 0 (Date.ofOrd (isoWeek1Monday y + 7 * w + 7)) = .ok (Date.ofOrd (isoWeek1Monday y + 7 * (w - 1) + 7)) := by
+      rw [dateOfLastDay_ok _ _ (by rw [o3]; omega) (by rw [o3]; unfold maxOrd; omega), o3]
+      congr 2; unfold weekdayOrd at hmon ⊢; omega
+    by_cases hc : ((⟨y, 1, 1⟩ : Date).weekday : Int) ≤ 3
+    · rw [if_pos hc] at step1
+      simp only [weekDateRange, hmk, hm, bind, Except.bind, if_pos hc, step1, step2, step3, step4, step5, pure,
+        Except.pure, isoDate]
+    · rw [if_neg hc] at step1
+      simp only [weekDateRange, hmk, hm, bind, Except.bind, if_neg hc, step1, step2, step3, step4, step5, pure,
+        Except.pure, isoDate]
+  · unfold weekdayOrd isoWeek1Monday
+    rw [ho]
+    simp only
+    split <;> omega
+
+/-! ## `TimexConstraintsHelper.collapse` terminates (since fix d3c7bf705) -/
+
+section terminates
+variable {α : Type}
+
+theorem findJ_bounds (ov : α → α → Bool) (r : α) : ∀ (rs : List α) (k j : Nat) (r2 : α),
+    findJ ov r rs k = some (j, r2) → k ≤ j ∧ j < k + rs.length := by
+  intro rs
+  induction rs with
+  | nil => intro k j r2 h; simp [findJ] at h
+  | cons a rest ih =>
+    intro k j r2 h
+    unfold findJ at h
+    split at h
+    · cases h; simp
+    · have := ih (k + 1) j r2 h
+      simp; omega
+
+theorem firstPair_bounds (ov : α → α → Bool) : ∀ (rs : List α) (k i j : Nat) (r1 r2 : α),
+    firstPair ov rs k = some (i, j, r1, r2) → k ≤ i ∧ i < j ∧ j < k + rs.length := by
+  intro rs
+  induction rs with
+  | nil => intro k i j r1 r2 h; simp [firstPair] at h
+  | cons a rest ih =>
+    intro k i j r1 r2 h
+    unfold firstPair at h
+    split at h
+    · rename_i j' r2' hj
+      cases h
+      have := findJ_bounds ov _ rest (k + 1) _ _ hj
+      simp; omega
+    · have := ih (k + 1) i j r1 r2 h
+      simp; omega
+
+/-- one round of `inner_collapse` that changes the list removes two ranges and appends one -/
+theorem innerCollapse_length (ov : α → α → Bool) (inter : α → α → α) (rs rs' : List α)
+    (h : innerCollapse ov inter rs = some rs') : rs'.length + 1 = rs.length := by
+  unfold innerCollapse at h
+  split at h
+  · cases h
+  · split at h
+    · cases h
+    · rename_i i j r1 r2 hp
+      cases h
+      have hb := firstPair_bounds ov rs 0 i j r1 r2 hp
+      simp [List.length_eraseIdx]
+      split <;> split <;> omega
+
+/-- C15 **collapse_terminates** — `while self.inner_collapse(ranges)` stops after at most `len(ranges)` rounds,
+for every list of ranges and whatever `is_overlapping` / `collapse_overlapping` compute. -/
+theorem collapse_terminates (ov : α → α → Bool) (inter : α → α → α) :
+    ∀ (n : Nat) (rs : List α), rs.length ≤ n → ∃ r, collapseLoop ov inter (n + 1) rs = some r ∧ r.length ≤ rs.length := by
+  intro n
+  induction n with
+  | zero =>
+    intro rs h
+    have : rs = [] := by cases rs <;> simp_all
+    subst this
+    exact ⟨[], by simp [collapseLoop, innerCollapse, firstPair]⟩
+  | succ n ih =>
+    intro rs h
+    unfold collapseLoop
+    cases hc : innerCollapse ov inter rs with
+    | none => exact ⟨rs, by simp⟩
+    | some rs' =>
+      have hl := innerCollapse_length ov inter rs rs' hc
+      obtain ⟨r, hr, hlen⟩ := ih rs' (by omega)
+      exact ⟨r, by simpa using hr, by omega⟩
+
+end terminates
+
+/-- `evaluate` therefore never answers `hang` through `collapse` when the fuel is at least the number of
+constraints: here for the date ranges. -/
+theorem collapseDates_returns (rs : List DateRange) : ∃ r, collapseDates (rs.length + 1) rs = .ok r := by
+  obtain ⟨r, hr, _⟩ := collapse_terminates DateRange.isOverlapping DateRange.collapseOverlapping rs.length rs (by omega)
+  exact ⟨sortBy (fun r => (r.s : Int)) r, by simp [collapseDates, hr]; rfl⟩
+
+/-! ### regression: the code before the fix did not terminate -/
+
+/-- the three date-range constraints of DESIGN.md §4 #15 as ordinal pairs:
+`(2010-01-01,2010-01-05,P4D)`, `(2020-01-15,2020-03-01,P46D)`, `(2020-01-01,2020-02-01,P1M)` -/
+def rA : DateRange := ⟨(⟨2010, 1, 1⟩ : Date).ord, (⟨2010, 1, 5⟩ : Date).ord⟩
+def rB : DateRange := ⟨(⟨2020, 1, 15⟩ : Date).ord, (⟨2020, 3, 1⟩ : Date).ord⟩
+def rC : DateRange := ⟨(⟨2020, 1, 1⟩ : Date).ord, (⟨2020, 2, 1⟩ : Date).ord⟩
+/-- their "collapsed" pair B ∩ C = 2020-01-15 … 2020-02-01 -/
+def rX : DateRange := DateRange.collapseOverlapping rB rC
+
+def sA : Str := [40, 50, 48, 49, 48, 45, 48, 49, 45, 48, 49, 44, 120, 44, 80, 52, 68, 41]
+def sB : Str := [40, 50, 48, 50, 48, 45, 48, 49, 45, 49, 53, 44, 120, 44, 80, 52, 54, 68, 41]
+def sC : Str := [40, 50, 48, 50, 48, 45, 48, 49, 45, 48, 49, 44, 120, 44, 80, 49, 77, 41]
+
+/-- the constraint strings really denote these ranges (model of `daterange_from_timex`) -/
+theorem triple_ranges :
+    daterangeFromTimex (parse genCfg sA) = .ok rA ∧ daterangeFromTimex (parse genCfg sB) = .ok rB ∧
+    daterangeFromTimex (parse genCfg sC) = .ok rC := by
+  decide
+
+theorem findJ_replicate_none (r x : DateRange) (h : r.isOverlapping x = false) (n k : Nat) :
+    findJ DateRange.isOverlapping r (List.replicate n x) k = none := by
+  induction n generalizing k with
+  | zero => rfl
+  | succ n ih => simp [List.replicate_succ, findJ, h, ih]
+
+/-- **inner_collapse_before_fix_stuck** — with `del ranges[i:1]; del ranges[j-1:1]` (empty slices unless the index
+is 0) one round from `[A, B, C] ++ [X]ⁿ` finds the pair `(B, C)` at indices `(1, 2)`, deletes nothing and appends
+`X` again: the list strictly grows and the same pair is found next time — the loop never ends. -/
+theorem inner_collapse_before_fix_stuck (n : Nat) :
+    innerCollapseBeforeFix DateRange.isOverlapping DateRange.collapseOverlapping ([rA, rB, rC] ++ List.replicate n rX) =
+      some ([rA, rB, rC] ++ List.replicate (n + 1) rX) := by
+  have hAB : rA.isOverlapping rB = false := by decide
+  have hAC : rA.isOverlapping rC = false := by decide
+  have hAX : rA.isOverlapping rX = false := by decide
+  have hBC : rB.isOverlapping rC = true := by decide
+  have hlen : ¬ (([rA, rB, rC] ++ List.replicate n rX).length = 1) := by simp
+  unfold innerCollapseBeforeFix
+  rw [if_neg hlen]
+  simp only [List.cons_append, List.nil_append, firstPair, findJ, hAB, hAC, hBC, Bool.false_eq_true, if_false,
+    if_true, findJ_replicate_none rA rX hAX]
+  simp [delTo1, List.replicate_succ', rX]
+
+/-- regression (was finding `collapse-nonterminating`): the same call returns now — the Wednesdays of
+2020-01-15 … 2020-01-31 (`B ∩ C`; `A` = 2010-01-01 … 2010-01-04 holds no Wednesday). -/
+theorem evaluate_triple_returns :
+    evaluate genCfg 64 [weekdayStr 3] [sA, sB, sC] =
+      .ok [[50, 48, 50, 48, 45, 48, 49, 45, 49, 53], [50, 48, 50, 48, 45, 48, 49, 45, 50, 50],
+           [50, 48, 50, 48, 45, 48, 49, 45, 50, 57]] := by
+  decide
+
+/-- regression (was finding `evaluate-blank-timex`): a time-only candidate against a date range gives no result,
+not an empty TIMEX; (was `evaluate-feb29-raises`): `XXXX-02-29` over 2019‥2021 gives 2020-02-29. -/
+theorem evaluate_regressions :
+    evaluate genCfg 64 [[84, 48, 57]] [[50, 48, 50, 48]] = .ok [] ∧
+    evaluate genCfg 64 [[88, 88, 88, 88, 45, 48, 50, 45, 50, 57]]
+      [[40, 50, 48, 49, 57, 45, 48, 49, 45, 48, 49, 44, 120, 44, 80, 51, 89, 41]] =
+      .ok [[50, 48, 50, 48, 45, 48, 50, 45, 50, 57]] := by
+  decide
 
 end RTV.Timex
